@@ -11,8 +11,10 @@ CONFIG = dict(
           "Random::new(seed): populations of size 0..8 of uniquely tagged individuals (5 quick / 12 thorough objective "
           "patterns per size: all equal, positive with ties, negative, 11-value grid with ties/zero/negatives/+inf, finite "
           "grid), with and without a population below; counts 0..size+1; tournament sizes 0..size+1 and = size; DE y in {1,2}; "
-          "IWO (min,max) incl. min>max (an Err since /repo df44458); 20 (quick) / 40 (thorough) seeds per case; the witness (chosen indices) is read off "
-          "the tags, for SUS / Tournament / DE it is obtained by replaying the same generator calls on index vectors; "
+          "IWO (min,max) incl. min>max (an Err since /repo df44458); 20 (quick) / 40 (thorough) seeds per case; every witness is reconstructed from the "
+          "tags of the OUTPUT (chosen indices, DE blocks, a competitor list explaining each tournament winner); the property "
+          "predicate never looks at generator draws (tournament: winner is a member with at most len-size strictly better "
+          "members); only the SUS start point is replayed, for the model comparison, with a legality fallback; "
           "(2) DECurrentToBest on populations with duplicated individuals; (3) SUS with scripted draws at the edges of [0,1) "
           "(Random::with_rng); (4) the public helpers proportional_weights / reverse_rank / objective_bounds compared "
           "directly on random objective lists; (5) selection pressure: 3 members with distinct objectives, 6000 draws per "
